@@ -37,9 +37,81 @@ static int run_args(const uint8_t *a, int n)
         return r;
 }
 
+/* long runs of NEXT / DATA_NEXT from one handler (invocation counters narrower than int): every one re-invokes, the last code decides */
+static int family_nextrun(void)
+{
+        static const int RUNS[] = {254, 255, 256, 257, 65534, 65535, 65536, 65537, 70000};
+        int idx = 0;
+        for (int hk = 0; hk < 4; hk++)            /* write, read, run, test */
+                for (int code = 0; code < 2; code++)
+                        for (int ri = 0; ri < 9; ri++)
+                                for (int last = 0; last < 2; last++, idx++) {
+                                        if (idx % SW.nshards != SW.shard) continue;
+                                        struct wcmd *c = sw_table(2);
+                                        strcpy(c[0].name, "+X"); c[0].hmask = HM_W | HM_R | HM_U | HM_T;
+                                        strcpy(c[1].name, "+Z"); c[1].hmask = HM_U;
+                                        sw_caps(24, idx % 3);
+                                        W.line_max = 60; W.mon = P_ALL;
+                                        W.max_inv = RUNS[ri]; W.tok_mode = 1;
+                                        static const int HKS[4] = {HK_W, HK_R, HK_U, HK_T};
+                                        int8_t menu[2] = {(int8_t)(code ? CAT_RETURN_STATE_DATA_NEXT : CAT_RETURN_STATE_NEXT), (int8_t)(last ? CAT_RETURN_STATE_ERROR : CAT_RETURN_STATE_OK)};
+                                        for (int k = 0; k < 4; k++) { memcpy(W.codes[k], menu, 2); W.ncodes[k] = 2; }
+                                        world_build();
+                                        snprintf(SW.extra, sizeof SW.extra, "family=nextrun handler=%d code=%s run=%d last=%s", HKS[hk], code ? "DATA_NEXT" : "NEXT", RUNS[ri], last ? "ERROR" : "OK");
+                                        static const char *LN[4] = {"AT+X=1\nAT+Z\n", "AT+X?\nAT+Z\n", "AT+X\nAT+Z\n", "AT+X=?\nAT+Z\n"};
+                                        SW.cases++;
+                                        if (sw_line((const uint8_t *)LN[hk], (int)strlen(LN[hk]))) return 1;
+                                        if (sw_expired()) return 0;
+                                }
+        W.max_inv = 2; W.tok_mode = 0;
+        return 0;
+}
+
+/* argument texts around 2^16 and 2^17 bytes in a command buffer that holds them (length counters narrower than size_t) */
+static int family_huge(void)
+{
+        static const int LENS[] = {65533, 65534, 65535, 65536, 65537, 65541, 131071, 131072, 131073};
+        static uint8_t line[270000];
+        int idx = 0;
+        for (int k = 0; k < 3; k++)
+                for (int capi = 0; capi < 2; capi++)
+                        for (int li = 0; li < 9; li++, idx++) {
+                                if (idx % SW.nshards != SW.shard) continue;
+                                int cap = capi ? 131080 : 65540, L = LENS[li];
+                                struct wcmd *c = sw_table(2);
+                                kind = k;
+                                if (k == 0) { strcpy(c[0].name, "+W"); c[0].hmask = HM_W; }
+                                else if (k == 1) { strcpy(c[0].name, "D"); c[0].hmask = HM_W; c[0].implicit = 1; }
+                                else {
+                                        /* junk that is no string, then a valid string: rejected unless the collector lost the junk */
+                                        strcpy(c[0].name, "+V"); c[0].hmask = HM_W; c[0].nvar = 1;
+                                        c[0].var[0] = (struct wvar){.type = (L & 1) ? CAT_VAR_BUF_STRING : CAT_VAR_BUF_HEX, .size = 8, .access = CAT_VAR_ACCESS_READ_WRITE, .wcb = 1};
+                                }
+                                strcpy(c[1].name, "+Z"); c[1].hmask = HM_U;
+                                sw_caps(cap, 0);
+                                W.line_max = 2 * 131080 + 100;
+                                W.mon = P_ALL & ~(unsigned)(P_C12 | P_C15);       /* no whole-state hashing per call on 128 KiB buffers */
+                                world_build();
+                                snprintf(SW.extra, sizeof SW.extra, "family=huge kind=%d cap=%d argument-bytes=%d", k, cap, L);
+                                const char *pre = k == 0 ? "AT+W=" : k == 1 ? "ATD" : "AT+V=";
+                                int n = (int)strlen(pre);
+                                memcpy(line, pre, (size_t)n);
+                                for (int i = 0; i < L; i++) line[n++] = (uint8_t)(k == 2 ? 'G' : 'a' + i % 23);
+                                if (k == 2) { const char *tail = (L & 1) ? "\"hi\"" : "0A0B"; memcpy(line + n, tail, 4); n += 4; }
+                                line[n++] = '\n';
+                                memcpy(line + n, "AT+Z\n", 5); n += 5;
+                                SW.cases++;
+                                if (sw_line(line, n)) return 1;
+                                if (sw_expired()) return 0;
+                        }
+        return 0;
+}
+
 int main(int argc, char **argv)
 {
         sw_init(argc, argv, "args");
+        if (!strcmp(sw_args(argc, argv, "--family", "pos"), "nextrun")) { family_nextrun(); char tg[64]; snprintf(tg, sizeof tg, "args-nextrun-%d", SW.shard); return sw_finish(tg); }
+        if (!strcmp(sw_args(argc, argv, "--family", "pos"), "huge")) { family_huge(); char tg[64]; snprintf(tg, sizeof tg, "args-huge-%d", SW.shard); return sw_finish(tg); }
         int lite = sw_argi(argc, argv, "--lite", 0);
         static const int CAPS[] = {6, 7, 8, 16, 24, 32};
         int ncaps = SW.tier ? 6 : 4;
